@@ -153,7 +153,7 @@ def main():
         # a translation error concerns a property only if its theorems depend on the regenerated file in question
         deps = leanpart.transitive_imports(f'TealerModel.Props.{a.pid}')
         for e in ext.get('errors', []):
-            gen = e.split(':', 1)[0] if e.split(':', 1)[0] in ('Leaf', 'Matchers', 'Flow', 'Search', 'Asserted', 'Worklist', 'StackAst', 'OpTable', 'ParseTable', 'Consts') else 'Leaf'
+            gen = e.split(':', 1)[0] if e.split(':', 1)[0] in ('Leaf', 'Matchers', 'Flow', 'Search', 'Asserted', 'Worklist', 'StackAst', 'GroupLoop', 'OpTable', 'ParseTable', 'Consts') else 'Leaf'
             if f'TealerModel.Generated.{gen}' in deps:
                 cx.broken.append(f"translate: {e}")
     except Exception:
